@@ -215,7 +215,7 @@ func randomBoundsPositive(c *core.Ctx, r *core.Report) {
 		}
 		for _, call := range an.AllCalls(fn) {
 			isDraw := an.IsFunc(an.Callee(call), "math/rand", "Intn") || an.IsFunc(an.Callee(call), "math/rand/v2", "IntN")
-			if !isDraw && an.Callee(call) == nil && !call.Common().IsInvoke() && an.DynCallType(call) == nil {
+			if !isDraw && an.Callee(call) == nil && !call.Common().IsInvoke() {
 				if sig, ok := call.Common().Value.Type().Underlying().(*types.Signature); ok && sig.Params().Len() == 1 && sig.Results().Len() == 1 {
 					pb, okP := sig.Params().At(0).Type().Underlying().(*types.Basic)
 					rb, okR := sig.Results().At(0).Type().Underlying().(*types.Basic)
